@@ -736,6 +736,10 @@ def sstr_of(ex, st, v):
     v = _obj(ex, st, v)
     if isinstance(v, SStr):
         return v
+    if isinstance(v, BV) and v.w == 32:
+        return SStr([v])  # a char used as a pattern
+    if hasattr(v, "chars") and isinstance(getattr(v, "chars"), list):
+        return SStr(v.chars)
     if isinstance(v, Str) and v.s is not None:
         return SStr([BV(32, False, ord(ch)) for ch in v.s])
     raise Unsupported("not a text value: %r" % (v,))
@@ -863,6 +867,9 @@ def make_text_models():
     def m_deref(ex, st, args, callee, ty):
         return _last_ref(ex, st, args[0]) if isinstance(args[0], (Ref, BoxRef)) else BoxRef(args[0])
 
+    def m_string_ne(ex, st, args, callee, ty):
+        return b_not(m_string_eq(ex, st, args, callee, ty))
+
     return [
         (rx(r"^core::str::<impl str>::chars$"), m_chars),
         (rx(r"^<Chars<'_> as Iterator>::count$"), m_count),
@@ -872,13 +879,13 @@ def make_text_models():
         (rx(r"^String::is_empty$"), m_is_empty),
         (rx(r"^<T as Into<String>>::into$"), m_into_string),
         (rx(r"^<.* as AsRef<str>>::as_ref$"), m_into_string),
-        (rx(r"^core::str::<impl str>::ends_with::<(&String|&str)>$"), m_ends_with),
-        (rx(r"^core::str::<impl str>::starts_with::<(&String|&str)>$"), m_starts_with),
-        (rx(r"^core::str::<impl str>::contains::<(&String|&str)>$"), m_contains),
-        (rx(r"^core::str::<impl str>::rfind::<(&String|&str)>$"), finder(True)),
-        (rx(r"^core::str::<impl str>::find::<(&String|&str)>$"), finder(False)),
-        (rx(r"^core::str::<impl str>::strip_suffix::<(&String|&str)>$"), stripper(True)),
-        (rx(r"^core::str::<impl str>::strip_prefix::<(&String|&str)>$"), stripper(False)),
+        (rx(r"^(?:core::)?str::<impl str>::ends_with::<(&String|&str|char|&&str)>$"), m_ends_with),
+        (rx(r"^(?:core::)?str::<impl str>::starts_with::<(&String|&str|char|&&str)>$"), m_starts_with),
+        (rx(r"^(?:core::)?str::<impl str>::contains::<(&String|&str|char|&&str)>$"), m_contains),
+        (rx(r"^(?:core::)?str::<impl str>::rfind::<(&String|&str|char|&&str)>$"), finder(True)),
+        (rx(r"^(?:core::)?str::<impl str>::find::<(&String|&str|char|&&str)>$"), finder(False)),
+        (rx(r"^(?:core::)?str::<impl str>::strip_suffix::<(&String|&str|char|&&str)>$"), stripper(True)),
+        (rx(r"^(?:core::)?str::<impl str>::strip_prefix::<(&String|&str|char|&&str)>$"), stripper(False)),
         (rx(r"^<(str|String) as Index<RangeTo<usize>>>::index$"), m_index_to),
         (rx(r"^<(str|String) as Index<((?:std::ops::)?)?RangeFrom<usize>>>::index$"), m_index_from),
         (rx(r"^<(str|String) as Index<((?:std::ops::)?)?Range<usize>>>::index$"), m_index_range),
@@ -887,8 +894,8 @@ def make_text_models():
         (rx(r"^<String as From<&str>>::from$"), m_to_owned),
         (rx(r"^<String as Clone>::clone$"), m_to_owned),
         (rx(r"^(core::)?str::<impl str>::to_lowercase$"), m_to_lowercase),
-        (rx(r"^<String as PartialEq<&str>>::eq$"), m_string_eq),
-        (rx(r"^<String as PartialEq>::eq$"), m_string_eq),
+        (rx(r"^<(String|str|&str|&String) as PartialEq(<(&str|str|String|&String)>)?>::eq$"), m_string_eq),
+        (rx(r"^<(String|str|&str|&String) as PartialEq(<(&str|str|String|&String)>)?>::ne$"), m_string_ne),
         (rx(r"^<String as Deref>::deref$"), m_deref),
     ]
 
@@ -924,17 +931,24 @@ class LazyIter:
         self.items, self.stages = list(items), list(stages)
 
 
-class DrainCont:
-    """Pulls items through the stages one callback at a time; `finish(list)` builds the result."""
+FINISHERS = {}  # kind -> function(ex, st, cont, out, rest): module-level (no captured state)
 
-    def __init__(self, lazy, finish, limit=None):
+
+class DrainCont:
+    """Pulls items through the stages one callback at a time; FINISHERS[kind] builds the result."""
+
+    def __init__(self, lazy, kind, limit=None, target=None):
         self.pending = list(lazy.items)
         self.stages = lazy.stages
         self.out = []
-        self.finish = finish
+        self.kind = kind
         self.limit = limit
+        self.target = target
         self.cur = None
         self.stage_i = 0
+
+    def finish(self, ex, st, out, rest):
+        return FINISHERS[self.kind](ex, st, self, out, rest)
 
     def start(self, ex, st):
         return self._advance(ex, st)
@@ -951,6 +965,9 @@ class DrainCont:
                 self.cur = None
                 continue
             kind, f = self.stages[self.stage_i]
+            if kind == "pass":
+                self.stage_i += 1
+                continue
             arg = self.cur if kind == "map" else BoxRef(self.cur)
             return CallBack(f, [arg], self)
 
@@ -959,12 +976,41 @@ class DrainCont:
         if kind == "map":
             self.cur = v
             self.stage_i += 1
-        else:
+        elif kind == "filter":
             if ex.decide(st, v):
                 self.stage_i += 1
             else:
                 self.cur = None
+        elif kind == "skip_while":
+            if ex.decide(st, v):
+                self.cur = None  # still skipping
+            else:
+                # the predicate is never consulted again: drop the stage for the remaining items
+                self.stages = self.stages[:self.stage_i] + [("pass", None)] + self.stages[self.stage_i + 1:]
+                self.stage_i += 1
+        elif kind == "take_while":
+            if ex.decide(st, v):
+                self.stage_i += 1
+            else:
+                self.cur = None
+                self.pending = []
         return self._advance(ex, st)
+
+
+def _fin_vec(ex, st, cont, out, rest):
+    return VecM(out)
+
+
+def _fin_count(ex, st, cont, out, rest):
+    return BV(64, False, len(out))
+
+
+def _fin_next(ex, st, cont, out, rest):
+    cont.target.items = rest
+    return opt_some(ex, out[0]) if out else opt_none(ex)
+
+
+FINISHERS.update(vec=_fin_vec, count=_fin_count, next=_fin_next)
 
 
 def _items_of(ex, st, it):
@@ -975,9 +1021,67 @@ def _items_of(ex, st, it):
         return LazyIter(it.segs, [])
     if isinstance(it, ComponentsM):
         return LazyIter(it.comps, [])
+    if hasattr(it, "remaining") and hasattr(it, "toks"):
+        return LazyIter([t[0] for t in it.remaining()], [])
     if isinstance(it, VecM):
         return LazyIter(it.items, [])
     raise Unsupported("iterator adapter over %r" % (it,))
+
+
+def make_int_models():
+    from .values import bv_bin, bv_cast
+
+    def m_unsigned_abs(ex, st, args, callee, ty):
+        a = args[0]
+        if a.concrete:
+            return BV(a.w, False, abs(a.sint()))
+        t = a.smt()
+        return BV(a.w, False, "(ite (bvslt %s (_ bv0 %d)) (bvneg %s) %s)" % (t, a.w, t, t))
+
+    def m_abs(ex, st, args, callee, ty):
+        a = args[0]
+        mn = BV(a.w, True, 1 << (a.w - 1))
+        if ex.decide(st, bv_bin("Eq", a, mn)):
+            raise Panic("attempt to negate with overflow (abs of MIN)")
+        r = m_unsigned_abs(ex, st, args, callee, ty)
+        return BV(a.w, True, r.v)
+
+    def wrap(op):
+        def f(ex, st, args, callee, ty):
+            return bv_bin(op, args[0], args[1])
+        return f
+
+    def m_sat_sub(ex, st, args, callee, ty):
+        a, b = args
+        if a.signed:
+            raise Unsupported("signed saturating_sub")
+        lt = bv_bin("Lt", a, b)
+        if lt.concrete:
+            return BV(a.w, False, 0) if lt.v else bv_bin("Sub", a, b)
+        return BV(a.w, False, "(ite %s (_ bv0 %d) %s)" % (lt.smt(), a.w, bv_bin("Sub", a, b).smt()))
+
+    def minmax(is_min):
+        def f(ex, st, args, callee, ty):
+            a, b = args
+            c = bv_bin("Le" if is_min else "Ge", a, b)
+            if c.concrete:
+                return a if c.v else b
+            return BV(a.w, a.signed, "(ite %s %s %s)" % (c.smt(), a.smt(), b.smt()))
+        return f
+
+    T = r"(?:core::)?num::<impl [iu](?:8|16|32|64|128|size)>::"
+    return [
+        (rx(r"^%sunsigned_abs$" % T), m_unsigned_abs),
+        (rx(r"^%sabs$" % T), m_abs),
+        (rx(r"^%swrapping_add$" % T), wrap("Add")),
+        (rx(r"^%swrapping_sub$" % T), wrap("Sub")),
+        (rx(r"^%swrapping_mul$" % T), wrap("Mul")),
+        (rx(r"^%ssaturating_sub$" % T), m_sat_sub),
+        (rx(r"^(?:std::)?cmp::min::<[iu]\w+>$"), minmax(True)),
+        (rx(r"^(?:std::)?cmp::max::<[iu]\w+>$"), minmax(False)),
+        (rx(r"^<[iu]\w+ as Ord>::min$"), minmax(True)),
+        (rx(r"^<[iu]\w+ as Ord>::max$"), minmax(False)),
+    ]
 
 
 def make_combinators():
@@ -1035,6 +1139,19 @@ def make_combinators():
             return Adt("Result", 0, "Ok", [o.fields[0]])
         return Adt("Result", 1, "Err", [args[1]])
 
+    class OkOrElseCont:
+        def resume(self, ex, st, v):
+            return Adt("Result", 1, "Err", [v])
+
+    def m_ok_or_else(ex, st, args, callee, ty):
+        o = args[0]
+        if o.variant == 1:
+            return Adt("Result", 0, "Ok", [o.fields[0]])
+        return CallBack(args[1], [], OkOrElseCont())
+
+    def m_error_ctor(ex, st, args, callee, ty):
+        return Adt("Error", None, callee.split("::")[-1].split("<")[0], [])
+
     def m_res_map(ex, st, args, callee, ty):
         r = args[0]
         if r.variant == 1:
@@ -1067,31 +1184,25 @@ def make_combinators():
         l = _items_of(ex, st, args[0])
         return LazyIter(l.items, l.stages + [("filter", args[1])])
 
-    def collect_into(kind):
+    def stage(kind):
         def f(ex, st, args, callee, ty):
             l = _items_of(ex, st, args[0])
+            return LazyIter(l.items, l.stages + [(kind, args[1])])
+        return f
 
-            def fin(ex2, st2, out, rest, kind=kind):
-                if kind == "vec":
-                    return VecM(out)
-                if kind == "count":
-                    return BV(64, False, len(out))
-                raise Unsupported("collect into " + kind)
-            return DrainCont(l, fin).start(ex, st)
+    def collect_into(kind):
+        def f(ex, st, args, callee, ty):
+            return DrainCont(_items_of(ex, st, args[0]), kind).start(ex, st)
         return f
 
     def m_lazy_next(ex, st, args, callee, ty):
         l = _obj(ex, st, args[0])
-
-        def fin(ex2, st2, out, rest):
-            l.items = rest
-            return opt_some(ex2, out[0]) if out else opt_none(ex2)
-        return DrainCont(l, fin, limit=1).start(ex, st)
+        return DrainCont(l, "next", limit=1, target=l).start(ex, st)
 
     def m_into_iter_identity(ex, st, args, callee, ty):
         return args[0]
 
-    return [
+    return make_int_models() + [
         (rx(r"^Result::<.*>::ok$"), m_result_ok),
         (rx(r"^Result::<.*>::err$"), m_result_err),
         (rx(r"^Result::<.*>::is_ok$"), is_variant("Result", 0)),
@@ -1104,14 +1215,19 @@ def make_combinators():
         (rx(r"^(Option|Result)::<.*>::unwrap_or$"), m_unwrap_or),
         (rx(r"^(Option|Result)::<.*>::unwrap_or_else::<.*>$"), m_unwrap_or_else),
         (rx(r"^Option::<.*>::ok_or::<.*>$"), m_ok_or),
+        (rx(r"^Option::<.*>::ok_or_else::<.*>$"), m_ok_or_else),
+        (rx(r"^(?:errors::\w+::)?(Path|Vfs|File|Iter|String|User|Core)Error::\w+(::<.*>)?$"), m_error_ctor),
+        (rx(r"^<(?:errors::\w+::)?(Path|Vfs|File|Iter|String|User|Core)Error as Into<RvError>>::into$"), m_error_ctor),
         (rx(r"^Result::<.*>::map::<.*>$"), m_res_map),
         (rx(r"^Result::<.*>::map_err::<.*>$"), m_res_map_err),
         (rx(r"^Result::<.*>::and_then::<.*>$"), m_res_and_then),
         (rx(r"^(Option|Result)::<.*>::(unwrap|expect)$"), m_unwrap),
         (rx(r"^<.* as Iterator>::map::<.*>$"), m_iter_map),
         (rx(r"^<.* as Iterator>::filter::<.*>$"), m_iter_filter),
-        (rx(r"^<(Map|Filter)<.*> as Iterator>::collect::<Vec<.*>>$"), collect_into("vec")),
-        (rx(r"^<(Map|Filter)<.*> as Iterator>::count$"), collect_into("count")),
-        (rx(r"^<(Map|Filter)<.*> as Iterator>::next$"), m_lazy_next),
-        (rx(r"^<(Map|Filter)<.*> as IntoIterator>::into_iter$"), m_into_iter_identity),
+        (rx(r"^<.* as Iterator>::skip_while::<.*>$"), stage("skip_while")),
+        (rx(r"^<.* as Iterator>::take_while::<.*>$"), stage("take_while")),
+        (rx(r"^<(Map|Filter|SkipWhile|TakeWhile)<.*> as Iterator>::collect::<Vec<.*>>$"), collect_into("vec")),
+        (rx(r"^<(Map|Filter|SkipWhile|TakeWhile)<.*> as Iterator>::count$"), collect_into("count")),
+        (rx(r"^<(Map|Filter|SkipWhile|TakeWhile)<.*> as Iterator>::next$"), m_lazy_next),
+        (rx(r"^<(Map|Filter|SkipWhile|TakeWhile)<.*> as IntoIterator>::into_iter$"), m_into_iter_identity),
     ]
